@@ -21,7 +21,10 @@ func nodeJSON(n *sbom.Node) any {
 	if n == nil {
 		return nil
 	}
-	b, _ := protojson.Marshal(n)
+	b, err := protojson.Marshal(n)
+	if err != nil {
+		return map[string]any{"unprintable_as_json": err.Error(), "coq": coqfmt.Node(n)}
+	}
 	return rawJSON(b)
 }
 
